@@ -10,6 +10,11 @@ fn main() {
         }
         Some("sim") => sim::main(&args[2]),
         Some("batch") => sim::batch(&args[2]),
+        Some("stress-debouncer") => record::stress(
+            std::path::Path::new(&args[2]),
+            args[3].parse().unwrap(),
+            args.get(4).and_then(|s| s.parse().ok()).unwrap_or(1),
+        ),
         _ => {
             eprintln!("usage: watch_tools record-shapes <scratch-dir> | sim <input.json>");
             std::process::exit(2);
